@@ -219,6 +219,8 @@ func init() {
 	streams["wf8"] = func(seed int64, idx int) *scenario {
 		return runWriterScenario(seed*1000003+int64(idx), wOpts{prepared: true, preparedHeavy: idx%2 == 0, compress: true, allowF8: true}, -1, "")
 	}
+	streams["dfuzz"] = func(seed int64, idx int) *scenario { return runDialFuzzScenario(seed*1000003 + int64(idx)) }
+	streams["conc"] = func(seed int64, idx int) *scenario { return runConcScenario(seed*1000003 + int64(idx)) }
 	streams["pair"] = func(seed int64, idx int) *scenario { return runPairScenario(seed*1000003 + int64(idx)) }
 	streams["join"] = func(seed int64, idx int) *scenario { return runJoinScenario(seed*1000003 + int64(idx)) }
 	streams["srv"] = func(seed int64, idx int) *scenario { return runServerScenario(seed*1000003+int64(idx), false) }
